@@ -173,7 +173,7 @@ func (hc *histClient) hello2(kind string, a int, useReal bool) (rec []byte, real
 	var s *echbox.Sealer
 	real = useReal
 	switch kind {
-	case "hello2-fresh":
+	case "hello2-fresh", "hello2-sibling":
 		real = false
 	}
 	if real {
@@ -188,8 +188,19 @@ func (hc *histClient) hello2(kind string, a int, useReal bool) (rec []byte, real
 		hc.sendSeq++
 	} else {
 		_, tpub, _ := p.Target.material()
+		tcfg := b.tcfg
+		if kind == "hello2-sibling" {
+			// a context of its own (encapsulated key included) for another key the
+			// server holds under the same config id, if there is one
+			for _, k := range p.Keys {
+				if k.ID == p.Target.ID && k.KeySeed != p.Target.KeySeed && !k.OtherKEM && !k.BadConfig && !k.BadPriv {
+					_, tpub, tcfg = k.material()
+					break
+				}
+			}
+		}
 		suite := p.Target.Suites[p.SuiteIdx%len(p.Target.Suites)]
-		s, err = echbox.NewSealer(tpub, b.tcfg, p.Target.ID, suite)
+		s, err = echbox.NewSealer(tpub, tcfg, p.Target.ID, suite)
 		if err != nil {
 			return
 		}
@@ -204,7 +215,7 @@ func (hc *histClient) hello2(kind string, a int, useReal bool) (rec []byte, real
 	}
 	// (hello2-enc-same: the encapsulated key of the first hello is sent again,
 	// covered by the associated data, and the payload continues the first context)
-	o2, err := s.SealInto(outer, echIdx, encoded, kind == "hello2-enc-same")
+	o2, err := s.SealInto(outer, echIdx, encoded, kind == "hello2-enc-same" || kind == "hello2-sibling")
 	if err != nil {
 		return
 	}
@@ -277,6 +288,7 @@ var hello2Alerts = map[string][]int{
 	"hello2-suite":     {alIllegalParameter},
 	"hello2-enc":       {alIllegalParameter},
 	"hello2-enc-same":  {alIllegalParameter},
+	"hello2-sibling":   {alIllegalParameter},
 	"hello2-fresh":     {alDecryptError},
 	"hello2-seq":       {alDecryptError},
 	"hello2-sni":       {alIllegalParameter},
@@ -1002,7 +1014,7 @@ func runHistory(prop string, seed uint64, p *HistoryPlan, b *built, io_ *histIO,
 	res.Sample = map[string]any{"kind": "history", "concurrent": p.Concurrent, "steps": p.Steps}
 }
 
-var cKinds = []string{"hello2-ok", "hello2-ok", "hello2-ok", "hello2-noech", "hello2-id", "hello2-suite", "hello2-enc", "hello2-enc-same", "hello2-fresh", "hello2-seq", "hello2-sni", "hello2-sni-case", "hello2-alpn", "hello2-innertype", "hello2-nover", "hello2-outersni", "hello2-suite-pre", "ccs", "ccs", "hs-other", "alert", "appdata"}
+var cKinds = []string{"hello2-ok", "hello2-ok", "hello2-ok", "hello2-noech", "hello2-id", "hello2-suite", "hello2-enc", "hello2-enc-same", "hello2-sibling", "hello2-fresh", "hello2-seq", "hello2-sni", "hello2-sni-case", "hello2-alpn", "hello2-innertype", "hello2-nover", "hello2-outersni", "hello2-suite-pre", "ccs", "ccs", "hs-other", "alert", "appdata"}
 var bKinds = []string{"hrr", "hrr", "sh", "ccs", "appdata", "hs-other", "alert"}
 
 func genC06(seed uint64, idx int) *Plan {
@@ -1013,6 +1025,13 @@ func genC06(seed uint64, idx int) *Plan {
 	if idx%7 == 3 {
 		// merged key files: the key the hello is sealed to is listed twice
 		base.Keys = append(base.Keys, base.Target)
+	}
+	if idx%7 == 5 {
+		// a rotation that kept the config id: another key pair under the same id
+		// and suites, listed in front of the one the hello is sealed to
+		sib := base.Target
+		sib.KeySeed += 9999
+		base.Keys = append([]KeySpec{sib}, base.Keys...)
 	}
 	h := &HistoryPlan{Base: *base, Concurrent: r.IntN(3) == 0}
 	if idx%16 == 11 {
